@@ -986,7 +986,7 @@ def _run(scn, ch, log, connector_mod, BaseConn):
                 probes["interim_given_to_caller"] = probes.get("interim_given_to_caller", 0) + 1
             if q != str(rid):
                 kind = ent["kind"] if ent else "?"
-                if kind == "answer" and cid in conns and any(n2 < n and _k != "partial" for _k, n2 in conns[cid]["abnormal"]):
+                if kind in ("answer", "interim") and cid in conns and any(n2 < n and _k != "partial" for _k, n2 in conns[cid]["abnormal"]):
                     kind = "shifted_after_stray"  # every later response on the connection is off by one
                 if kind in ("surplus", "unsolicited"):
                     kind = kind + ":" + stray_timing(cid, n)
